@@ -67,6 +67,10 @@ for _name in ("_check_cache", "_check_cache_async"):
             "implies(cache_key in old(self.cache._cache) and (not self.auto_reload or uptodate(old(self.cache._cache)[cache_key])),"
             " result is old(self.cache._cache)[cache_key] and load_func_calls() == 0 and result.global_data == env.make_globals(globals))",
             "len(lru_keys(self.cache)) <= self.cache.capacity",
+            # one caller's globals are never carried into another caller's render: the template object an *earlier* caller was
+            # handed (the cached one - the existing tests pin that a hit returns the very same object) keeps the globals it has
+            "implies(cache_key in old(self.cache._cache) and (not self.auto_reload or uptodate(old(self.cache._cache)[cache_key])),"
+            " old(self.cache._cache)[cache_key].global_data == old(old(self.cache._cache)[cache_key].global_data))",
         ],
         # a failing load leaves every cached template in place
         post_exc={"TemplateNotFoundError": [
@@ -85,7 +89,11 @@ contract(
     props=["C14"],
     params={"self": MIXIN, "name": Str, "context": Union(NoneT, CTXG), "args": Any_},
     obj_protocol="mapping",
+    ghost={"other": Str},
     post=[
+        # never serves a template loaded for one namespace to another caller: the key of a namespaced load is not the key of
+        # any un-namespaced load (whose key is the bare name `other`)
+        "implies(len(self.namespace_key) > 0 and (map_has(args, self.namespace_key) or (context is not None and map_has(context.globals, self.namespace_key))), result != other)",
         "implies(len(self.namespace_key) == 0, result == name)",
         # arguments take priority over the render context; no namespace value: the bare name
         "implies(len(self.namespace_key) > 0 and map_has(args, self.namespace_key), result == str(map_at(args, self.namespace_key)) + '/' + name)",
